@@ -16,6 +16,6 @@ CONSTANTS
   KeyShards <- NoKeyShards
   FaultBudget = 0
 VIEW View
-INVARIANTS InvDirValid InvDebris InvHandle InvNoErr
+INVARIANTS InvDirValid InvDebris InvHandle InvNoErr InvFdBound InvNoResidue
 PROPERTIES StepImmutable StepReadOnlyFirst StepRemoval StepRegister StepGetLin
 CHECK_DEADLOCK FALSE
